@@ -184,7 +184,7 @@ func (t *tr) importName(x ast.Expr) (string, bool) {
 		return "", false
 	}
 	switch id.Name {
-	case "types", "math", "sdk", "sdkerrors", "errorsmod", "errors", "errcode", "fmt", "collections", "time", "sort", "strconv", "banktypes", "telemetry":
+	case "types", "math", "sdk", "sdkerrors", "errorsmod", "errors", "errcode", "keeper", "fmt", "collections", "time", "sort", "strconv", "banktypes", "telemetry":
 		return id.Name, true
 	}
 	return "", false
@@ -455,7 +455,7 @@ func (t *tr) composite(e *ast.CompositeLit, en env) V {
 	}
 	c, ok := composites[name]
 	if ok && len(e.Elts) == 0 {
-		return V{"(default : " + c.T + ")", c.T}
+		return V{"(default : " + leanType(c.T) + ")", c.T}
 	}
 	if !ok {
 		return t.bad("composite literal of %s", name)
@@ -495,6 +495,48 @@ func (t *tr) call(e *ast.CallExpr, en env) V {
 	if callee == "sdk.UnwrapSDKContext" {
 		return V{"()", "SdkCtx"}
 	}
+	if cs, ok := t.u.Calls[callee]; ok && cs.Walk != "" && len(e.Args) == 3 {
+		if fl, ok := e.Args[2].(*ast.FuncLit); ok {
+			return t.walkFold(cs, fl, en)
+		}
+		return t.bad("Walk without a function literal")
+	}
+	if cs, ok := t.u.Calls[callee]; ok && cs.Store != "" {
+		// a collections call of a store-threaded unit: `Store` is a Lean term over the current
+		// store `st__` and the translated arguments (%1 …); Kind "rw" returns (value…, store'),
+		// "w" returns the new store, "r" a value
+		var av []V
+		var add func(a ast.Expr)
+		add = func(a ast.Expr) {
+			if c, ok := a.(*ast.CallExpr); ok && t.w.render(c.Fun) == "collections.Join" {
+				for _, x := range c.Args {
+					add(x)
+				}
+				return
+			}
+			av = append(av, t.expr(a, en))
+		}
+		for _, i := range cs.Args {
+			if i < len(e.Args) {
+				add(e.Args[i])
+			}
+		}
+		term := cs.Store
+		for i := len(av) - 1; i >= 0; i-- {
+			term = strings.ReplaceAll(term, fmt.Sprintf("%%%d", i+1), atom(av[i].L))
+		}
+		switch cs.Kind {
+		case "w":
+			t.pre = append(t.pre, fmt.Sprintf("let st__ : GStore := %s\n", term))
+			return V{"false", "Err"}
+		case "rw":
+			tmp := t.fresh("sr")
+			t.pre = append(t.pre, fmt.Sprintf("let %s := %s\nlet st__ : GStore := %s.2\n", tmp, term, tmp))
+			return V{"(" + tmp + ".1, false)", cs.Value.T}
+		default:
+			return V{term, cs.Value.T}
+		}
+	}
 	if cs, ok := t.u.Calls[callee]; ok {
 		if cs.Effect != "" {
 			t.pre = append(t.pre, t.recordEffect(cs.Effect, cs.Args, e, en))
@@ -528,7 +570,7 @@ func (t *tr) call(e *ast.CallExpr, en env) V {
 		switch f.Name {
 		case "len":
 			x := t.expr(e.Args[0], en)
-			if strings.HasPrefix(x.T, "List ") {
+			if strings.HasPrefix(x.T, "List ") || x.T == "Coins" {
 				return V{"(" + x.L + ".length : Int)", "Int"}
 			}
 			return t.bad("len of %s", x.T)
@@ -544,6 +586,11 @@ func (t *tr) call(e *ast.CallExpr, en env) V {
 				vt, ok2 := t.typeName(t.w.render(mt.Value))
 				if ok1 && ok2 {
 					return V{"(fun _ => none)", "Map " + kt + " " + vt}
+				}
+			}
+			if at, ok := e.Args[0].(*ast.ArrayType); ok && at.Len == nil {
+				if et, ok := t.typeName(t.w.render(at.Elt)); ok {
+					return V{"([] : List " + leanTypeAtom(et) + ")", "List " + et}
 				}
 			}
 			return t.bad("make(%s)", t.w.render(e.Args[0]))
@@ -796,6 +843,8 @@ func (t *tr) ret(s *ast.ReturnStmt, en env) string {
 			default:
 				return t.failf("return of %s where an error is expected", v.T)
 			}
+		} else if v.T == "Nil" && defaultable[want] {
+			v = V{"(default : " + leanType(want) + ")", want}
 		} else if want == "Unit" && v.T == "Nil" {
 			v = V{"()", "Unit"}
 		} else if strings.HasPrefix(want, "Option ") && v.T == "Nil" {
@@ -813,6 +862,9 @@ func (t *tr) ret(s *ast.ReturnStmt, en env) string {
 			return t.failf("effects variable unbound")
 		}
 		vals = append(vals, ev.lean)
+	}
+	if t.u.StoreOn {
+		vals = append(vals, "st__")
 	}
 	var r string
 	switch len(vals) {
@@ -928,6 +980,14 @@ func (t *tr) stmts(list []ast.Stmt, en env, k cont) string {
 				}
 			}
 		}
+		if ix, ok := s.X.(*ast.IndexExpr); ok && x.T == "Int" {
+			if mid, ok := ix.X.(*ast.Ident); ok {
+				if mv, ok := en.m[mid.Name]; ok && strings.HasPrefix(mv.t, "Map ") {
+					k := t.expr(ix.Index, en)
+					return fmt.Sprintf("let %s : %s := Go.mapSet %s %s (%s %s 1)\n", mv.lean, leanType(mv.t), mv.lean, k.L, x.L, op) + next(en)
+				}
+			}
+		}
 		id, ok := s.X.(*ast.Ident)
 		if !ok || x.T != "Int" {
 			return t.failf("inc/dec of %s", t.w.render(s.X))
@@ -962,6 +1022,42 @@ func (t *tr) stmts(list []ast.Stmt, en env, k cont) string {
 		pre, en2 := t.assign(s, en)
 		return pre + next(en2)
 	case *ast.IfStmt:
+		if t.u.JoinIfs && s.Else == nil && s.Init == nil && !hasJump(s.Body) {
+			// an `if` that only updates variables: translated as a join
+			//   let (vars) := if c then (… vars') else (vars)
+			// instead of duplicating the rest of the function into both branches
+			c := t.expr(s.Cond, en)
+			if c.T != "Bool" && c.T != "Err" {
+				return t.failf("condition of type %s", c.T)
+			}
+			cpre := t.takePre()
+			if c.L == "false" || c.L == "(false)" {
+				return cpre + next(en)
+			}
+			vars := assignedOuter(s.Body, en, t.u.Alias)
+			if t.u.EffectsOn {
+				vars = append(vars, "effs__")
+			}
+			if t.u.StoreOn {
+				vars = append(vars, "st__")
+			}
+			tuple := func(e2 env) string {
+				var parts []string
+				for _, n := range vars {
+					parts = append(parts, e2.m[n].lean)
+				}
+				switch len(parts) {
+				case 0:
+					return "()"
+				case 1:
+					return parts[0]
+				}
+				return "(" + strings.Join(parts, ", ") + ")"
+			}
+			thenS := t.stmts(s.Body.List, en.deeper(), tuple)
+			pat := tuple(en)
+			return cpre + "let " + pat + " := (if " + c.L + " then\n" + indent(indent(thenS)) + "\n  else\n    " + pat + ")\n" + next(en)
+		}
 		en2 := en.deeper()
 		pre := ""
 		if s.Init != nil {
@@ -1190,7 +1286,8 @@ func (t *tr) assign0(s *ast.AssignStmt, en env) (string, env) {
 			return t.failf("multi-value arity"), en
 		}
 		out := ""
-		if len(parts) == 2 && strings.HasPrefix(v.L, "(") && strings.HasSuffix(v.L, ")") {
+		_, lhs0sel := s.Lhs[0].(*ast.SelectorExpr)
+		if len(parts) == 2 && !lhs0sel && strings.HasPrefix(v.L, "(") && strings.HasSuffix(v.L, ")") {
 			inner := v.L[1 : len(v.L)-1]
 			if j := strings.LastIndex(inner, ", "); j > 0 && balanced(inner[:j]) && !strings.Contains(inner[j+2:], " ") {
 				a, b := inner[:j], inner[j+2:]
@@ -1214,6 +1311,23 @@ func (t *tr) assign0(s *ast.AssignStmt, en env) (string, env) {
 		out += fmt.Sprintf("let %s := %s\n", tmp, v.L)
 		for i, l := range s.Lhs {
 			var n string
+			if sel, isSel := l.(*ast.SelectorExpr); isSel {
+				// `x.F, err = f()`: through a temporary
+				tn := t.fresh("tmp")
+				proj := tmp
+				for j := 0; j < i; j++ {
+					proj += ".2"
+				}
+				if i < len(parts)-1 {
+					proj += ".1"
+				}
+				out += fmt.Sprintf("let %s : %s := %s\n", tn, leanType(parts[i]), proj)
+				en.m["tmp__"+tn] = evar{tn, parts[i], en.depth}
+				o2, en2 := t.assign0(&ast.AssignStmt{Lhs: []ast.Expr{sel}, Tok: token.ASSIGN, Rhs: []ast.Expr{&ast.Ident{Name: "tmp__" + tn}}}, en)
+				out += o2
+				en = en2
+				continue
+			}
 			en, n = t.bindLhs(en, l, parts[i], s.Tok)
 			if n == "_" {
 				continue
@@ -1449,6 +1563,21 @@ func assignedOuter(body *ast.BlockStmt, en env, alias map[string]aliasSpec) []st
 	return out
 }
 
+// hasJump: the block contains a return / break / continue / goto (at any depth)
+func hasJump(b *ast.BlockStmt) bool {
+	found := false
+	ast.Inspect(b, func(n ast.Node) bool {
+		switch n.(type) {
+		case *ast.ReturnStmt, *ast.BranchStmt:
+			found = true
+		case *ast.FuncLit:
+			return false
+		}
+		return !found
+	})
+	return found
+}
+
 func freeIdents(n ast.Node) map[string]bool {
 	out := map[string]bool{}
 	ast.Inspect(n, func(n ast.Node) bool {
@@ -1490,6 +1619,9 @@ func (t *tr) rangeLoop(s *ast.RangeStmt, en env, next cont) string {
 		if !has {
 			state = append(state, "effs__")
 		}
+	}
+	if t.u.StoreOn {
+		state = append(state, "st__")
 	}
 	isState := map[string]bool{}
 	matPre := ""
@@ -1677,6 +1809,106 @@ func (t *tr) rangeLoop(s *ast.RangeStmt, en env, next cont) string {
 		stateTuple(en), indent(next(en)))
 }
 
+// walkFold: `coll.Walk(ctx, nil, func(key, val) (bool, error) { …; return false, nil })` — the
+// closure visits every record of the collection in key order and never stops or fails: the call
+// becomes a left fold of the closure body (an auxiliary definition over the captured variables it
+// assigns) over the list of records the call table names.
+func (t *tr) walkFold(cs callSpec, fl *ast.FuncLit, en env) V {
+	ps := paramNames(fl.Type.Params)
+	if len(ps) != 2 {
+		return t.bad("Walk closure arity")
+	}
+	body := fl.Body.List
+	if len(body) == 0 {
+		return t.bad("empty Walk closure")
+	}
+	last, ok := body[len(body)-1].(*ast.ReturnStmt)
+	if !ok || len(last.Results) != 2 || identName(last.Results[0]) != "false" || identName(last.Results[1]) != "nil" {
+		return t.bad("Walk closure does not end in `return false, nil`")
+	}
+	inner := &ast.BlockStmt{List: body[:len(body)-1]}
+	// `if err != nil { panic(err) }` on an oracle error disappears; any other jump is not supported
+	elT := strings.TrimPrefix(cs.Value.T, "List ")
+	state := assignedOuter(inner, en, t.u.Alias)
+	isState := map[string]bool{}
+	for _, x := range state {
+		isState[x] = true
+	}
+	var frees []string
+	for x := range freeIdents(inner) {
+		if v, ok := en.m[x]; ok && !isState[x] && v.t != "Keeper" && v.lean != "false" && v.lean != "true" {
+			frees = append(frees, x)
+		}
+	}
+	sort.Strings(frees)
+	t.nclos++
+	name := fmt.Sprintf("%s.walk%d", t.u.Name, t.nclos)
+	cen := en.deeper()
+	var params, callArgs, stNames, stTypes []string
+	for _, x := range frees {
+		v := en.m[x]
+		params = append(params, fmt.Sprintf("(%s : %s)", v.lean, leanType(v.t)))
+		callArgs = append(callArgs, v.lean)
+	}
+	var valName string
+	cen, valName = t.declare(cen, ps[1], elT)
+	if ps[0] != "_" {
+		cen.m[ps[0]] = evar{"POISON_key", "Poison", cen.depth}
+	}
+	params = append(params, fmt.Sprintf("(%s : %s)", valName, leanType(elT)))
+	for _, x := range state {
+		v := en.m[x]
+		params = append(params, fmt.Sprintf("(%s : %s)", v.lean, leanType(v.t)))
+		stNames = append(stNames, v.lean)
+		stTypes = append(stTypes, leanTypeAtom(v.t))
+	}
+	stType, stTuple := "Unit", "()"
+	if len(stNames) == 1 {
+		stType, stTuple = stTypes[0], stNames[0]
+	} else if len(stNames) > 1 {
+		stType, stTuple = "("+strings.Join(stTypes, " × ")+")", "("+strings.Join(stNames, ", ")+")"
+	}
+	oldLoop, oldClos, oldPre := t.loop, t.closure, t.pre
+	t.loop, t.closure, t.pre = nil, nil, nil
+	failBefore := t.fail
+	bodyL := t.stmts(inner.List, cen, func(e2 env) string {
+		var parts []string
+		for _, n := range state {
+			parts = append(parts, e2.m[n].lean)
+		}
+		switch len(parts) {
+		case 0:
+			return "()"
+		case 1:
+			return parts[0]
+		}
+		return "(" + strings.Join(parts, ", ") + ")"
+	})
+	t.loop, t.closure, t.pre = oldLoop, oldClos, oldPre
+	if failBefore == "" && t.fail != "" {
+		return V{"UNTRANSLATABLE", "?"}
+	}
+	if hasJump(inner) {
+		return t.bad("Walk closure with an early return")
+	}
+	t.aux = append(t.aux, fmt.Sprintf("def %s %s : %s :=\n%s\n", name, strings.Join(params, " "), stType, indent(bodyL)))
+	list := strings.ReplaceAll(cs.Walk, "%s", "st__")
+	lam := fmt.Sprintf("(fun s__ v__ => %s %s v__ %s)", name, strings.Join(callArgs, " "), "s__")
+	if len(stNames) > 1 {
+		var projs []string
+		for i := range stNames {
+			p := "s__" + strings.Repeat(".2", i)
+			if i < len(stNames)-1 {
+				p += ".1"
+			}
+			projs = append(projs, p)
+		}
+		lam = fmt.Sprintf("(fun s__ v__ => %s %s v__ %s)", name, strings.Join(callArgs, " "), strings.Join(projs, " "))
+	}
+	t.pre = append(t.pre, fmt.Sprintf("let %s := List.foldl %s %s %s\n", stTuple, lam, stTuple, list))
+	return V{"false", "Err"}
+}
+
 // mapRange: `for k, v := range m` over a Go map.  The iteration order of a Go map is not
 // defined; the unit table names an ORACLE parameter holding the keys in the order this
 // execution happens to visit them, and the tie theorem quantifies over every enumeration.
@@ -1792,6 +2024,9 @@ func (t *tr) fullRet() LT {
 	rets := append([]LT{}, t.u.Ret...)
 	if t.u.EffectsOn {
 		rets = append(rets, "List GEff")
+	}
+	if t.u.StoreOn {
+		rets = append(rets, "GStore")
 	}
 	switch len(rets) {
 	case 0:
@@ -1984,6 +2219,11 @@ func (t *tr) translate(fd funcDecl) string {
 	body := ""
 	en.depth = 1
 	pre := ""
+	if t.u.StoreOn {
+		t.used["st__"] = true
+		en.m["st__"] = evar{"st__", "GStore", 0}
+		params = append(params, "(st__ : GStore)")
+	}
 	if t.u.EffectsOn {
 		ln := t.fresh("effs__")
 		en.m["effs__"] = evar{ln, "List GEff", 0}
@@ -2014,6 +2254,9 @@ func (t *tr) translate(fd funcDecl) string {
 	} else {
 		body = pre + t.stmts(fn.Body.List, en, func(e2 env) string {
 			if len(t.u.Ret) == 0 {
+				if t.u.StoreOn {
+					return "st__"
+				}
 				if t.u.EffectsOn {
 					return e2.m["effs__"].lean
 				}
@@ -2053,10 +2296,12 @@ var groupDeps = map[string][]string{
 	"Match":    {"Pure"},
 	"Payout":   {"Pure"},
 	"Genesis":  {"Pure", "Msgs"},
+	"Import":   {"Pure"},
+	"Export":   {"Pure"},
 	"Server":   {"Pure", "Msgs", "Bids", "Auctions"},
 }
 
-var groupOrder = []string{"Pure", "Msgs", "Bids", "Auctions", "Settle", "Match", "Payout", "Server", "Genesis"}
+var groupOrder = []string{"Pure", "Msgs", "Bids", "Auctions", "Settle", "Match", "Payout", "Server", "Genesis", "Import", "Export"}
 
 // translateUnits renders Generated/Code/<Group>.lean, one file per group of units.
 func (w *World) translateUnits() map[string]string {
@@ -2072,6 +2317,9 @@ func (w *World) translateUnits() map[string]string {
 		b.WriteString("  Each definition is the translation of the named Go function of /repo as it is NOW;\n")
 		b.WriteString("  Fundraising/Proofs/Tie/*.lean prove each equal to the hand-written model.\n-/\n")
 		b.WriteString("import Fundraising.Tables.GoSem\n")
+		if g == "Import" || g == "Export" {
+			b.WriteString("import Fundraising.Tables.GoStore\n")
+		}
 		if g == "Match" || g == "Payout" {
 			b.WriteString("import Fundraising.Tables.GoSemMatch\n")
 		}
